@@ -72,7 +72,8 @@ def run(tier, seed, replay=None):
     rng = random.Random(seed * 7919 + 11)
     g = PlanGen(rng)
     n = 150 if tier == "quick" else 4000
-    plans = [g.basic() for _ in range(n)]
+    plans = [g.basic() for _ in range(n - n // 4)] + [g.lattice() for _ in range(n // 4)]
+    rng.shuffle(plans)
     # correspondence of the Lean model of the whole grouping front end with the real ImplGroups::parse
     # (accepted plans, overlapping ones that must be rejected, trait arguments, inherent mode)
     corr = plans[: (60 if tier == "quick" else 1500)] + [g.overlap()[0] for _ in range(15 if tier == "quick" else 400)] + \
